@@ -56,6 +56,14 @@ type genPlan struct {
 	End        int
 	EndDelay   time.Duration
 	StallAfter time.Duration // gstall of senders caught in a write when the generation ends
+	Orphans    []orphan      // unsolicited control responses the peer sends: none may move State()
+}
+
+// orphan is a control response with system bytes of no open transaction.
+type orphan struct {
+	At    time.Duration // after the connection came up
+	SType byte
+	B3    byte
 }
 
 type scenarioB struct {
@@ -67,6 +75,8 @@ type scenarioB struct {
 	Plans    []genPlan
 	Senders  int
 	CloseAt  time.Duration // first application Close
+	CloseOnConnect int     // if > 0: the first Close is called while the k-th TCP connection attempt completes
+	CloseOnOff     time.Duration
 	Reopen   bool
 	ReopenIn time.Duration
 	Close2In time.Duration
@@ -117,6 +127,8 @@ type harnessB struct {
 	coalesce int
 
 	closeCalled  bool
+	closeStarted bool
+	peerDials    int
 	closeCallAt  time.Duration
 	closeRet     bool
 	closeRetTick int
@@ -181,6 +193,22 @@ func genScenarioB(t *core.Tape, faulty bool) scenarioB {
 		}
 		p.EndDelay = time.Duration(t.Choose("scn", 40)) * 10 * time.Millisecond
 		p.StallAfter = []time.Duration{0, 50 * time.Millisecond, 500 * time.Millisecond, 3 * time.Second}[t.Choose("scn", 4)]
+		for k := t.Weighted("scn", 4, 2, 1); k > 0; k-- {
+			o := orphan{At: time.Duration(t.Choose("scn", 120)) * 10 * time.Millisecond}
+			switch t.Weighted("scn", 4, 1, 1, 1, 1) {
+			case 0:
+				o.SType = refhsms.STSelectRsp
+			case 1:
+				o.SType, o.B3 = refhsms.STSelectRsp, 1
+			case 2:
+				o.SType = refhsms.STDeselectRsp
+			case 3:
+				o.SType = refhsms.STLinktestRsp
+			case 4:
+				o.SType, o.B3 = refhsms.STRejectReq, 3
+			}
+			p.Orphans = append(p.Orphans, o)
+		}
 		sc.Plans = append(sc.Plans, p)
 	}
 	sc.Senders = t.Choose("scn", 3)
@@ -190,6 +218,12 @@ func genScenarioB(t *core.Tape, faulty bool) scenarioB {
 	sc.CloseAt = time.Duration(t.Choose("scn", 400)) * 10 * time.Millisecond
 	if t.Bias("scn", 1, 3) {
 		sc.CloseAt = 20 * time.Second // after the whole script
+	}
+	if t.Bias("scn", 1, 3) {
+		// Close racing a TCP-up: the dial / accept completes while Close is being processed
+		sc.CloseOnConnect = 1 + t.Choose("scn", 4)
+		sc.CloseOnOff = []time.Duration{0, 0, time.Millisecond, 2 * time.Millisecond}[t.Choose("scn", 4)]
+		sc.CloseAt = 20 * time.Second
 	}
 	sc.Reopen = t.Choose("scn", 2) == 1
 	sc.ReopenIn = time.Duration(t.Choose("scn", 30)) * 10 * time.Millisecond
@@ -241,6 +275,11 @@ func BuildE2E(faulty bool) core.BuildFunc {
 				return simnet.DialOutcome{Kind: 1}
 			}
 
+			if attempt == sc.CloseOnConnect {
+				w.Probe("close_races_dial_completion")
+				w.After(time.Duration(l)*time.Millisecond+sc.CloseOnOff, "app-close", func() { h.appClose(true) })
+			}
+
 			return simnet.DialOutcome{Latency: time.Duration(l) * time.Millisecond}
 		}
 		r.P.OnOpen = h.onOpen
@@ -281,7 +320,7 @@ func (h *harnessB) describe() map[string]any {
 	}
 
 	return map[string]any{"engine": "e2e", "active": sc.Active, "equip": sc.Equip, "T6": sc.T6.String(), "T7": sc.T7.String(), "backoff": sc.Backoff.String(),
-		"writeTimeout": sc.WriteTO.String(), "generations": plans, "senders": sc.Senders, "closeAt": sc.CloseAt.String(), "reopen": sc.Reopen, "dial": sc.DialLat}
+		"writeTimeout": sc.WriteTO.String(), "generations": plans, "senders": sc.Senders, "closeAt": sc.CloseAt.String(), "closeOnConnect": sc.CloseOnConnect, "closeOnOff": sc.CloseOnOff.String(), "reopen": sc.Reopen, "dial": sc.DialLat}
 }
 
 func (h *harnessB) peerDialLoop() {
@@ -293,6 +332,11 @@ func (h *harnessB) peerDialLoop() {
 		}
 		last := r.P.Last()
 		if (last == nil || !last.Alive()) && r.N.Listening(rig.Addr) {
+			h.peerDials++
+			if h.peerDials == h.sc.CloseOnConnect {
+				w.Probe("close_races_accept")
+				w.After(h.sc.CloseOnOff, "app-close", func() { h.appClose(true) })
+			}
 			r.P.Connect(rig.Addr)
 		}
 		w.After(time.Duration(3+w.T.Choose("peer", 20))*time.Millisecond, "peer-dial-tick", tick)
@@ -330,6 +374,16 @@ func (h *harnessB) onOpen(c *refhsms.Conn) {
 	}
 	h.gens = append(h.gens, g)
 	h.w.Logf("gen %d opened plan sel=%s end=%s", g.idx, selNames[g.plan.Sel], endNames[g.plan.End])
+	for i, o := range g.plan.Orphans {
+		o, sys := o, 0x7E000000+uint32(g.idx)<<8+uint32(i)
+		h.w.After(o.At, "peer-orphan", func() {
+			if c.Alive() && !g.peerEnded {
+				// system bytes of no transaction the library ever opened: the frame completes nothing
+				h.w.Probe(fmt.Sprintf("orphan_control_response_stype%d_while_%v", o.SType, h.last))
+				c.SendFrame(refhsms.Header{Session: 0xFFFF, B3: o.B3, SType: o.SType, Sys: sys}, nil)
+			}
+		})
+	}
 	if !h.sc.Active {
 		// the peer originates the select
 		switch g.plan.Sel {
@@ -550,9 +604,10 @@ func (h *harnessB) endGen(g *gen) {
 
 func (h *harnessB) appClose(first bool) {
 	w, r := h.w, h.r
-	if h.finished {
+	if h.finished || (first && h.closeStarted) {
 		return
 	}
+	h.closeStarted = true
 	w.Go("closer", func() {
 		for {
 			h.closeCalled = true
